@@ -1179,6 +1179,11 @@ def lock_check(prop, tier):
         run.add_model(r, required_actions=("Acquire", "Unlock", "Restore"))
         if r["violation"]:
             run.design_violation(r)
+    # scope exits that fail (a restore is refused, the destructor panics): the guard is released all the same
+    r = tlc.check("MC_Lifecycle", "MC_Lifecycle_rf", workers=TLC_WORKERS, timeout=3000)
+    run.add_model(r, required_actions=("RestoreFails", "Unlock"))
+    if r["violation"]:
+        run.design_violation(r)
     # (b) schedules
     rnd = vlib.rnd("lock")
     scheds = []
@@ -1949,6 +1954,7 @@ DEVIATIONS = [
     ("MC_Lifecycle", "MC_Lifecycle_q1", {"UnmapOnDrop": "FALSE"}, ("NoLeak",)),
     ("MC_Lifecycle", "MC_Lifecycle_rg", {"SavedFrom": '"first"'}, ("OnlyNamed", "Restored")),
     ("MC_Lifecycle", "MC_Lifecycle_fr", {"AllocAt": '"fixed"'}, ("ForeignIntact",)),
+    ("MC_Lifecycle", "MC_Lifecycle_rf", {"LockByHand": "TRUE"}, ("IdleClean", "HolderIsLock", "Mutex")),
     ("MC_Lock", "MC_Lock_q", {"UnlockFirst": "TRUE"}, ("Mutex", "FreeMeansOrig", "PrevSeesOrig", "HolderIsLock")),
     ("MC_Lock", "MC_Lock_q", {"SwallowPoison": "FALSE"}, ("Reusable", "HandOver", "NoStuck", "temporal")),
     ("MC_Times", "MC_Times_q", {"AtomicCount": '"loadStore"'}, ("Accounting", "Budget", "ExitVerdict")),
